@@ -104,6 +104,10 @@ C15_NeverTwice == \A i \in obs : \A a, b \in 1..Len(calls[i]) : a # b => calls[i
 C15_SplitInvariant ==      \* the outcome depends on the total only, not on how it was cut
     Quiescent => \A i \in obs : calls[i] = Expected(i, performed)
 
+(* ---- liveness: every plan is eventually executed completely (no call spins or stalls) ------------- *)
+FairSpec == Spec /\ WF_vars(Next)
+C15_PlanCompletes == <>Quiescent
+
 (* ---- export ------------------------------------------------------------------ *)
 Cases == {[plan |-> p, obs |-> SetToSortSeq(o, <), total |-> Total(p), log |-> b,
            expected |-> [i \in 1..Cardinality(o) |-> Expected(SetToSortSeq(o, <)[i], Total(p))]]
